@@ -19,8 +19,12 @@ void __cxa_free_exception(char* p) { free(p); }
 char* __cxa_begin_catch(char* p) { return p; }
 void __cxa_end_catch(void) {}
 void _ZNSt13runtime_errorC1EPKc(char* self, char* msg) { ((struct exn*)self)->vt = exn_vtable; ((struct exn*)self)->msg = "runtime_error"; }
+struct sstr_view { char* p; uint64_t size; };
+void _ZNSt13runtime_errorC1ERKNSt7__cxx1112basic_stringIcSt11char_traitsIcESaIcEEE(char* self, char* str) { struct sstr_view* v = (struct sstr_view*)str; char* c = malloc(v->size + 1); memcpy(c, v->p, v->size); c[v->size] = 0; ((struct exn*)self)->vt = exn_vtable; ((struct exn*)self)->msg = c; }
+void _ZNSt13runtime_errorD1Ev(char* self) {}
 void _ZSt24__throw_out_of_range_fmtPKcz(char* fmt, ...) { lib_throw("out_of_range"); }
 void _ZSt20__throw_length_errorPKc(char* m) { lib_throw("length_error"); }
+void _ZSt19__throw_logic_errorPKc(char* m) { lib_throw("logic_error"); }
 void _ZSt17__throw_bad_allocv(void) { lib_throw("bad_alloc"); }
 void _ZSt28__throw_bad_array_new_lengthv(void) { lib_throw("bad_array_new_length"); }
 void __clang_call_terminate(char* e) { fprintf(stderr, "terminate\n"); abort(); }
@@ -29,16 +33,6 @@ char* _Znwm(uint64_t n) { return malloc(n ? n : 1); }
 void _ZdlPv(char* p) { free(p); }
 void _ZNSt6localeC1Ev(char* self) {}
 void _ZNSt6localeD1Ev(char* self) {}
-struct sstr { char* p; uint64_t size; union { char buf[16]; uint64_t cap; } u; };
-char*
-_ZNSt7__cxx1112basic_stringIcSt11char_traitsIcESaIcEE10_M_replaceEmmPKcm(char* self, uint64_t pos, uint64_t len1, char* s, uint64_t len2)
-{
-    struct sstr* str = (struct sstr*)self;
-    if (pos != 0 || len1 != 0 || str->size != 0) { fprintf(stderr, "unmodelled _M_replace\n"); abort(); }
-    if (len2 > 15) { str->p = malloc(len2 + 1); str->u.cap = len2; }
-    memcpy(str->p, s, len2); str->p[len2] = 0; str->size = len2;
-    return self;
-}
 /* regex object: 32 bytes; the model keeps a pointer to its two compiled forms (anchored for
  * regex_match, plain for regex_search) in the shared_ptr's pointer slot (+16) and leaves the
  * control block (+24) NULL so the translated release code does nothing */
